@@ -5,7 +5,7 @@ From Coq Require Import String.
 From Coq Require Import List NArith Bool Arith.
 From Coq Require Import Init.Byte.
 From FFS Require Import Base.Res Base.Bytes Base.Lit Abi.Types Gen.AbiConsts
-  AbiType.Syntax AbiType.Spec AbiType.Model AbiType.Abs.
+  AbiType.Syntax AbiType.Spec AbiType.Model AbiType.Abs AbiType.ModelSig.
 Import ListNotations.
 
 (* parameter objects as written by the harness *)
@@ -25,7 +25,11 @@ Inductive case :=
    the same tree and signature (evaluated by the harness on the implementation) *)
 | CParam (p : dparam) (cls : nat) (tree : option otree) (sig : bdsl) (reparse_same : bool)
 (* ABI document: entries as (inputs, outputs); class of ABI.Validate() *)
-| CAbi (entries : list (list dparam * list dparam)) (cls : nat).
+| CAbi (entries : list (list dparam * list dparam)) (cls : nat)
+(* entry name, inputs; class and text of Entry.Signature() *)
+| CSig (name : bdsl) (inputs : list dparam) (cls : nat) (sig : bdsl)
+(* a parameter list; class, observed tree and String() of ParameterArray.TypeComponentTree() *)
+| CList (inputs : list dparam) (cls : nat) (tree : option otree) (sig : bdsl).
 
 (* ---------- grammar recogniser (oracle), from Spec.v ---------- *)
 
@@ -181,6 +185,16 @@ Fixpoint oty (o : otree) : option ty :=
       end
   end.
 
+(* the grammar's types of a list of parameter objects (all must be in the grammar) *)
+Fixpoint recognise_all (tbl : list (bytes * ty)) (l : list param) : option (list ty) :=
+  match l with
+  | [] => Some []
+  | p :: r => match recognise tbl p, recognise_all tbl r with
+              | Some t, Some ts => Some (t :: ts)
+              | _, _ => None
+              end
+  end.
+
 Local Open Scope N_scope.
 (* result codes: 0 = agree; 1..9 = model differs from implementation; >= 10 = the implementation
    fails the grammar oracle / a property check on this input *)
@@ -226,6 +240,35 @@ Definition check_case (tbl : list (bytes * ty)) (c : case) : N :=
     | Ok _, 0%nat => 0
     | Err _, 1%nat => 0
     | _, _ => 4
+    end
+  | CSig name inputs cls sig =>
+    if (cls =? 2)%nat then 12 else
+    let ps := map expand inputs in
+    let grammar_code : N :=
+      match recognise_all tbl ps, cls with
+      | Some ts, 0%nat =>
+          if bytes_eqb (bexpand name ++ canonical (TTuple ts)) (bexpand sig) then 0 else 13
+      | Some _, _ => 11                                         (* refused, but every input is valid *)
+      | None, 0%nat => 10                                       (* produced, but an input is not in the grammar *)
+      | None, _ => 0
+      end in
+    if negb (grammar_code =? 0)%N then grammar_code else
+    match EntrySignature (bexpand name) ps, cls with
+    | Ok s, 0%nat => if bytes_eqb s (bexpand sig) then 0 else 5
+    | Err _, 1%nat => 0
+    | _, _ => 5
+    end
+  | CList inputs cls tree sig =>
+    if (cls =? 2)%nat then 12 else
+    match ParameterArrayTree (map expand inputs), cls, tree with
+    | Ok tc, 0%nat, Some o =>
+        if negb (tc_matches tc o) then 6
+        else match tc_string tc with
+             | Ok s => if bytes_eqb s (bexpand sig) then 0 else 6
+             | _ => 6
+             end
+    | Err _, 1%nat, _ => 0
+    | _, _, _ => 6
     end
   end.
 
